@@ -736,25 +736,6 @@ def execute_history_c12(spec, camp):
                                "kind": "%s:%s" % (lang, cause_of(lang, name, None, ydict)),
                                "path": "", "detail": {"block": name, "occurrences": len(amb[name]),
                                                       "before": prev_amb[lang][name][:2], "after": amb[name][:2]}})
-            # Code supplied (splicer_code / splicer file) for a name that several blocks carry belongs
-            # into every one of them.
-            for name in sorted(amb):
-                if name in store.code.get(lang, {}):
-                    want, chan = norm_body(store.code[lang][name]), "splicer_code"
-                elif name in store.userfile.get(lang, {}):
-                    want, chan = norm_body(store.userfile[lang][name][0]), "userfile-" + store.userfile[lang][name][2]
-                else:
-                    continue
-                if any(l.endswith("+") for l in want):
-                    continue  # (trailing "+": recorded finding, judged on uniquely named blocks only)
-                probe("shared_name_blocks_judged")
-                for k_, got in enumerate(amb[name]):
-                    if got != want:
-                        feat, li, a, b = classify_mismatch(want, got)
-                        vs.append({"inv": "I12.1-body", "kind": "%s:%s:shared-name-%s:plain" % (lang, chan, feat),
-                                   "path": "", "detail": {"block": name, "occurrence": k_, "of": len(amb[name]),
-                                                          "line": li, "want": a, "got": b}})
-                        break
             base = bper.get(lang, {"uniq": {}, "amb": set()})
             # locate the blocks forced by declaration-level splicers (by their unique tokens)
             for (path, l), body in store.decl.items():
@@ -795,6 +776,29 @@ def execute_history_c12(spec, camp):
                                "detail": {"decl_path": list(path), "body": body[:3]}})
                     continue
                 decl_block.setdefault((path, lang), set()).update(found)
+            # Code supplied (splicer_code / splicer file) for a name that several blocks carry belongs
+            # into every one of them.
+            for name in sorted(amb):
+                if name in store.code.get(lang, {}):
+                    want, chan = norm_body(store.code[lang][name]), "splicer_code"
+                elif name in store.userfile.get(lang, {}):
+                    want, chan = norm_body(store.userfile[lang][name][0]), "userfile-" + store.userfile[lang][name][2]
+                else:
+                    continue
+                if any(l.endswith("+") for l in want):
+                    continue  # (trailing "+": recorded finding, judged on uniquely named blocks only)
+                dtoks = [t for (pth, l), bd in store.decl.items() if l == lang
+                         for t in re.findall(r"u\d+x\d+k\d+", " ".join(bd))[:1]]
+                if any(t in " ".join(got) for got in amb[name] for t in dtoks):
+                    continue  # a declaration-level splicer owns one of these blocks (highest precedence)
+                probe("shared_name_blocks_judged")
+                for k_, got in enumerate(amb[name]):
+                    if got != want:
+                        feat, li, a, b = classify_mismatch(want, got)
+                        vs.append({"inv": "I12.1-body", "kind": "%s:%s:shared-name-%s:plain" % (lang, chan, feat),
+                                   "path": "", "detail": {"block": name, "occurrence": k_, "of": len(amb[name]),
+                                                          "line": li, "want": a, "got": b}})
+                        break
             # A supplied line ending in "+" is swallowed as an indent marker (known finding) and shifts
             # the indentation -- hence the line breaks -- of everything written after it: in such a
             # run only the blocks that themselves carry such a line are judged.
